@@ -97,3 +97,15 @@ Proof.
   change (p_expr (parserec E0 f) false) with (expr E0 f false). fold r6_text.
   rewrite r6_expr. reflexivity.
 Qed.
+
+(* T12.pure over (text, module): the module in which a text is parsed is part of the environment *)
+Lemma prog_fuel_irrelevant_module : forall E m, z_in 59 (delims E) = true -> comment_guard E = true ->
+  forall t f1 f2, (f1 >= fuel_for (length t))%nat -> (f2 >= fuel_for (length t))%nat ->
+  prog (env_with_module E m) f1 t = prog (env_with_module E m) f2 t /\ prog (env_with_module E m) f1 t <> OOF.
+Proof.
+  intros E m H1 H2 t f1 f2 Hf1 Hf2.
+  assert (G1 : z_in 59 (delims (env_with_module E m)) = true) by exact H1.
+  assert (G2 : comment_guard (env_with_module E m) = true) by exact H2.
+  rewrite (prog_fuel_irrelevant _ G1 G2 t f1 Hf1), (prog_fuel_irrelevant _ G1 G2 t f2 Hf2).
+  split; [reflexivity|apply prog_never_oof; assumption].
+Qed.
